@@ -184,3 +184,44 @@ def task_spec_identity(repo):
            "def sortedKlasses : List String := [" + ", ".join(lean_str(k) for k in sorted_for) + "]",
            "end Dask.Generated.TaskSpecIdentity", ""]
     return "\n".join(out)
+
+
+@table("NamedSchedulers")
+def named_schedulers(repo):
+    """`named_schedulers` of dask/base.py: scheduler name -> get function (dotted), from the dict literal and its updates."""
+    tree = parse(repo, "dask/base.py")
+    pairs = []
+
+    def take(d):
+        if not isinstance(d, ast.Dict):
+            raise ExtractError("named_schedulers is not built from dict literals")
+        for k, v in zip(d.keys, d.values):
+            if not (isinstance(k, ast.Constant) and isinstance(k.value, str)):
+                raise ExtractError("named_schedulers key is not a string literal")
+            pairs.append((k.value, ast.unparse(v)))
+    for node in ast.walk(tree):
+        if isinstance(node, ast.AnnAssign) and isinstance(node.target, ast.Name) and node.target.id == "named_schedulers":
+            take(node.value)
+        elif isinstance(node, ast.Assign) and any(isinstance(t, ast.Name) and t.id == "named_schedulers" for t in node.targets):
+            take(node.value)
+        elif (isinstance(node, ast.Call) and isinstance(node.func, ast.Attribute) and node.func.attr == "update"
+              and isinstance(node.func.value, ast.Name) and node.func.value.id == "named_schedulers"):
+            if len(node.args) != 1:
+                raise ExtractError("named_schedulers.update with unexpected arguments")
+            take(node.args[0])
+    if not pairs:
+        raise ExtractError("named_schedulers not found")
+    gs = ast.unparse(find_def(tree, "get_scheduler"))
+    for pat in ("scheduler = scheduler.lower()", "if scheduler in named_schedulers:", "return named_schedulers[scheduler]",
+                "if get:", "if callable(scheduler):", "isinstance(scheduler, Executor)", "if cls is not None:",
+                "if not all((c.__dask_scheduler__ == get for c in collections)):"):
+        if pat not in gs:
+            raise ExtractError(f"get_scheduler no longer contains `{pat}`")
+    out = ["namespace Dask.Generated.NamedSchedulers",
+           "/-- `named_schedulers`: name ↦ get function -/",
+           "def namedSchedulers : List (String × String) := [" + ", ".join(f"({lean_str(a)}, {lean_str(b)})" for a, b in pairs) + "]",
+           "end Dask.Generated.NamedSchedulers", ""]
+    return "\n".join(out)
+
+
+fp("dask/base.py", "get_scheduler")
